@@ -38,11 +38,12 @@ func netModes(g G, e *Engine) (int, int64) {
 
 func init() {
 	register(&PropDef{
-		ID:   "C12",
-		Rule: "scenario = (client cfg, inbound stanza mix, cut offset, cut kind, segmentation, latency); non-trivial = the session was established and the cut was delivered to the client; distinct = distinct (scenario hash, schedule hash)",
-		Real: []string{"xmpp.Client", "xmpp.Session", "xmpp.Router", "xmpp.XMPPTransport", "stanza codec", "keepalive and recv goroutines"},
-		Stub: []string{"TCP (simnet)", "XMPP server (scripted model)", "clock (synctest)", "goroutine scheduling (token scheduler)", "sync.RWMutex (equivalent shim)"},
-		Run:  runC12,
+		ID:    "C12",
+		Rule:  "scenario = (client cfg, inbound stanza mix, cut offset, cut kind, segmentation, latency); non-trivial = the session was established and the cut was delivered to the client; distinct = distinct (scenario hash, schedule hash)",
+		Real:  []string{"xmpp.Client", "xmpp.Session", "xmpp.Router", "xmpp.XMPPTransport", "stanza codec", "keepalive and recv goroutines"},
+		Stub:  []string{"TCP (simnet)", "XMPP server (scripted model)", "clock (synctest)", "goroutine scheduling (token scheduler)", "sync.RWMutex (equivalent shim)"},
+		Run:   runC12,
+		Reach: []string{"c12.tls_close", "c12.reset_at_start", "c12.second_connection", "c12.blocking_callback"},
 	})
 }
 
